@@ -44,6 +44,14 @@ def run(tier, seed):
                 a["algs"] = (optsim.ALGS * (n // len(optsim.ALGS) + 1))[:n] if n <= 300 else a["algs"]
                 a["hints"] = (optsim.HINTS * n)[:n] if n <= 300 else a["hints"]
             forced.append((is_reg, a))
+    # every resident-key / verification / attachment setting under EVERY argument shape (the shape of a case is its position modulo the number of shapes, and the forced
+    # cases come first in a fixed order: which setting meets which shape does not depend on the seed)
+    for j in range(4 * len(optsim.SHAPES)):
+        a = optsim.gen_reg_args(rng)
+        a["auth_sel"] = {"attachment": (None, "platform", "cross-platform")[j % 3], "rk": (None, "discouraged", "preferred", "required")[(j // len(optsim.SHAPES)) % 4], "require_rk": bool(j % 2) if (j // len(optsim.SHAPES)) % 4 != 3 else (None if j % 3 == 0 else False),
+                         "uv": (None, "required", "preferred", "discouraged")[j % 4]}
+        a["attestation"] = optsim.ATTEST[j % len(optsim.ATTEST)]
+        forced.append((True, a))
     for h in range(nh):
         with optsim.Tape(seed * 1000 + h) as tape:
             draws_used = 0
